@@ -49,6 +49,10 @@ class Model:
             if not m or v is None:
                 continue
             args = [a.strip() for a in m.group(2).split(",")]
+            for a in args:
+                # coordinates the solver left unconstrained: fix a distinct value
+                if re.match(r"^[A-Za-z_]\w*$", a) and self.env.get(a) is None:
+                    self.env[a] = round(((abs(hash(a)) % 2000003) / 2000003.0) * 4.0 - 2.0, 9)
             try:
                 pt = tuple(round(_f(self.env.get(a), None) if self.env.get(a) is not None else float(a), 12) for a in args)
             except (TypeError, ValueError):
